@@ -20,6 +20,7 @@ import (
 	"github.com/skycoin/skycoin/src/visor/historydb"
 
 	"verif/harness/internal/ev"
+	"verif/harness/internal/gen"
 	"verif/harness/internal/hx"
 	"verif/harness/internal/ref/enc"
 )
@@ -38,119 +39,7 @@ func allCodecs() []verifcodec.Codec {
 
 const ruleC21 = "for each of the 29 generated codecs: values built by a reflection-driven generator (edge-biased integers, random byte arrays, nil / empty / 1-6 element slices, slice and string lengths at maxlen-1, maxlen, maxlen+1 where maxlen <= 1024 and, in thorough, a few at 65535+-1) and byte strings (valid encodings with byte edits, any 4 bytes patched to a boundary length value, truncations at random cuts, extensions, random bytes); oracle: three voices - generated code, reflection encoder, independent reference encoder - must agree on bytes and size, both decoders on success/error kind, consumed length and decoded value, exact decoding re-encodes to the input, no panic; non-trivial = value has a non-empty slice or a boundary length / byte string is a mutation; distinct by (codec, bytes)"
 
-var edgeU = []uint64{0, 1, 2, 0x7f, 0x80, 0xff, 0x100, 0x7fff, 0x8000, 0xffff, 0x10000, 0x7fffffff, 0x80000000, 0xffffffff, 0x100000000, 0x7fffffffffffffff, 0x8000000000000000, 0xffffffffffffffff}
-
-type genCtx struct {
-	t        *rapid.T
-	boundary bool // some slice was put at a maxlen boundary
-	nonEmpty bool
-	budget   int // remaining elements to generate in this value
-	n        int
-}
-
-func (g *genCtx) label(s string) string { g.n++; return fmt.Sprintf("%s%d", s, g.n) }
-
-func (g *genCtx) fill(v reflect.Value, maxlen int) {
-	t := g.t
-	switch v.Kind() {
-	case reflect.Bool:
-		v.SetBool(rapid.Bool().Draw(t, g.label("b")))
-	case reflect.Uint8, reflect.Uint16, reflect.Uint32, reflect.Uint64:
-		var x uint64
-		if rapid.Bool().Draw(t, g.label("edge")) {
-			x = rapid.SampledFrom(edgeU).Draw(t, g.label("e"))
-		} else {
-			x = rapid.Uint64().Draw(t, g.label("u"))
-		}
-		if bits := uint(v.Type().Bits()); bits < 64 {
-			x &= uint64(1)<<bits - 1
-		}
-		v.SetUint(x)
-	case reflect.Int8, reflect.Int16, reflect.Int32, reflect.Int64:
-		x := rapid.Int64().Draw(t, g.label("i"))
-		bits := uint(v.Type().Bits())
-		v.SetInt(x << (64 - bits) >> (64 - bits))
-	case reflect.Array:
-		if v.Type().Elem().Kind() == reflect.Uint8 {
-			b := rapid.SliceOfN(rapid.Byte(), v.Len(), v.Len()).Draw(t, g.label("arr"))
-			reflect.Copy(v, reflect.ValueOf(b))
-			return
-		}
-		for i := 0; i < v.Len(); i++ {
-			g.fill(v.Index(i), 0)
-		}
-	case reflect.String:
-		n := g.sliceLen(maxlen, true)
-		if n <= 64 {
-			v.SetString(rapid.StringOfN(rapid.Rune(), n, n, -1).Draw(t, g.label("s")))
-			// byte length may exceed n for multi-byte runes; that is fine (still a generated string)
-		} else {
-			v.SetString(strings.Repeat("a", n))
-		}
-		if v.Len() > 0 {
-			g.nonEmpty = true
-		}
-	case reflect.Slice:
-		cheap := v.Type().Elem().Kind() != reflect.Struct || v.Type().Elem().NumField() <= 3
-		n := g.sliceLen(maxlen, cheap)
-		if n == 0 {
-			if rapid.Bool().Draw(t, g.label("nil")) {
-				v.Set(reflect.Zero(v.Type()))
-			} else {
-				v.Set(reflect.MakeSlice(v.Type(), 0, 0))
-			}
-			return
-		}
-		g.nonEmpty = true
-		s := reflect.MakeSlice(v.Type(), n, n)
-		if v.Type().Elem().Kind() == reflect.Uint8 {
-			if n <= 64 {
-				reflect.Copy(s, reflect.ValueOf(rapid.SliceOfN(rapid.Byte(), n, n).Draw(t, g.label("bytes"))))
-			}
-			v.Set(s)
-			return
-		}
-		for i := 0; i < n && g.budget > 0; i++ {
-			g.budget--
-			g.fill(s.Index(i), 0)
-		}
-		v.Set(s)
-	case reflect.Struct:
-		ty := v.Type()
-		for i := 0; i < ty.NumField(); i++ {
-			f := ty.Field(i)
-			if f.PkgPath != "" {
-				continue
-			}
-			tag := f.Tag.Get("enc")
-			if strings.HasPrefix(tag, "-") {
-				continue
-			}
-			g.fill(v.Field(i), enc.MaxLen(tag))
-		}
-	default:
-		panic("genValue: unsupported kind " + v.Kind().String())
-	}
-}
-
-// sliceLen picks a length; with a maxlen tag it sometimes sits on the boundary.
-func (g *genCtx) sliceLen(maxlen int, cheap bool) int {
-	t := g.t
-	if maxlen > 0 && cheap {
-		lim := 10
-		if maxlen > 1024 {
-			lim = 400
-			if !hx.Thorough() {
-				lim = 0
-			}
-		}
-		if lim > 0 && rapid.IntRange(0, lim).Draw(t, g.label("atmax")) == 0 {
-			g.boundary = true
-			return maxlen + rapid.IntRange(-1, 1).Draw(t, g.label("maxoff"))
-		}
-	}
-	return rapid.SampledFrom([]int{0, 0, 1, 1, 2, 3, 4, 6}).Draw(t, g.label("len"))
-}
+type genCtx = gen.Filler
 
 func errKind(err error) string {
 	switch err {
@@ -388,9 +277,9 @@ func TestC21_Codecs(t *testing.T) {
 		maxlensOf(reflect.TypeOf(c.New()).Elem(), &mls)
 		t.Run(c.Name, func(t *testing.T) {
 			hx.Check(t, "C21", 300, 20000, func(t *rapid.T) {
-				g := &genCtx{t: t, budget: 60}
+				g := &genCtx{T: t, Budget: 60}
 				v := c.New()
-				g.fill(reflect.ValueOf(v).Elem(), 0)
+				g.Fill(reflect.ValueOf(v).Elem(), 0)
 				if err := checkValue(c, v); err != nil {
 					t.Fatal(err)
 				}
@@ -407,10 +296,10 @@ func TestC21_Codecs(t *testing.T) {
 				if decoded {
 					r.Count("bytes_decoded_" + class)
 				}
-				if g.boundary {
+				if g.Boundary {
 					r.Count("value_at_maxlen_boundary")
 				}
-				nt := g.nonEmpty || g.boundary || class != "valid"
+				nt := g.NonEmpty || g.Boundary || class != "valid"
 				key := append([]byte(c.Name+"/"), b...)
 				r.Case(nt, key)
 				if r.WantSample(nt) && len(b) <= 200 && class != "random" {
